@@ -38,6 +38,12 @@ CHECKS = {
  "C08": ("exploration", "6/C08",
   "Request histories on stateful ZUC generators: every composition of totals 1..=12 (and each with a zero-length request at every position) for four (key, iv) pairs exhaustively, plus seeded runs of 1-4 interleaved generators with per-run request-size laws and streams up to 2^16 (quick) / 2^20 (thorough) words, each request compared with the reference keystream vector at that generator's cursor.",
   "deterministic simulation: seeded and exhaustive small request histories on stateful objects against a whole-vector reference model"),
+ "C19": ("fault_enumeration", "6/C19",
+  "Key documents cross program boundaries inside the simulation: every encoding (SEC1, hex, SPKI DER/PEM; private bytes, hex, PKCS#8 DER/PEM, SEC1 DER) is written by the library or the reference and read by the library, the committed OpenSSL corpus must decode / decrypt / verify, GM/T 0009 ASN.1 ciphertexts are produced with ephemeral scalars chosen through the RNG seam from a committed rare-event table (coordinates with leading/trailing zero bytes, top bits) and compared with the reference DER, and every stored document takes the storage-fault menu (bit flips or character substitutions, 00/FF, truncation, extension, semantic substitutions): a decoder must answer Ok or Err and Ok only for a valid curve point / the d the document holds. The round-trip clauses are sampled; the seam-chosen ephemeral point and the stored-byte faults are what simulation adds.",
+  "deterministic simulation: stored-document fault enumeration, RNG-seam rare-event scripts, writer/reader parties incl. reference and OpenSSL corpus"),
+ "C20": ("fault_enumeration", "6/C20",
+  "Every receive-side entry point is called under panic capture, the RNG draw budget and a wall-clock watchdog on every length 0..=200 of zero/FF/seeded content and on every truncation, extension and single-byte corruption of a valid encoding; boundary private keys that a constructor accepts must let sign and encrypt terminate. Exhaustive over the stated menus per entry point; the outcome class must be Ok or Err.",
+  "deterministic simulation: input-fault enumeration at every entry point with panic capture, draw-budget liveness and watchdog"),
 }
 
 NOT_APPLICABLE = {
